@@ -185,6 +185,245 @@ OPMAP = {"open": "WOpen", "write": "WWrite", "flush": "WFlush", "fsync": "WFsync
          "close": "WClose", "replace": "WReplace"}
 
 
+# ------------------------------------------------------------------ process-wide probe (direct oracle only)
+def global_probe_violation(samples_bytes, out_dir: Path, emulate_exdev=False):
+    """Runs the real monitor in-process on a scripted sample sequence with EVERY file-changing primitive of
+    the interpreter interposed (builtins.open and the objects it returns, os.open / write / close / rename /
+    replace / truncate / ftruncate / unlink / link, whichever module calls them: shutil, tempfile, pathlib ...)
+    and calls the real reader before and after each of them.  Returns a description of the first violation of
+    C20 (reader raises; a value that is not a sampled running maximum; the value decreases) or None.  Unlike
+    run_monitor this does not depend on which API the monitor uses for its update, so it also sees updates
+    that go through shutil or tempfile.  `emulate_exdev`: renames between different directories fail with
+    EXDEV, as they do between file systems (used when no second file system is available)."""
+    import errno
+    import bblean._memory as mem
+    gib = [s * (1 / 1024 ** 3) for s in samples_bytes]
+    maxima, mx = [], 0.0
+    for g in gib:
+        if g > mx:
+            mx = g
+            maxima.append(g)
+    state = {"in": False, "last": None, "bad": None}
+    real_open = builtins.open
+    real_os = {k: getattr(os, k) for k in ("open", "write", "close", "rename", "replace", "truncate",
+                                           "ftruncate", "unlink", "remove", "link", "sendfile", "copy_file_range")
+               if hasattr(os, k)}
+
+    def probe(where):
+        if state["in"] or state["bad"] is not None:
+            return
+        state["in"] = True
+        try:
+            try:
+                v = mem.get_peak_memory_gib(out_dir)
+            except Exception as e:
+                state["bad"] = f"reader raised {type(e).__name__}: {str(e)[:80]} ({where})"
+                return
+            if v is None:
+                if state["last"] is not None:
+                    state["bad"] = f"a published value disappeared: the reader now obtains no value ({where})"
+                return
+            v = float(v)
+            if v not in maxima:
+                state["bad"] = f"reader obtained {v!r}, never a sampled running maximum ({where})"
+            elif state["last"] is not None and v < state["last"]:
+                state["bad"] = f"recorded peak decreased from {state['last']!r} to {v!r} ({where})"
+            state["last"] = v
+        finally:
+            state["in"] = False
+
+    class FP:
+        def __init__(self, f, name):
+            object.__setattr__(self, "_f", f)
+            object.__setattr__(self, "_n", name)
+
+        def _wrap(self, k, *a, **kw):
+            probe(f"before {k} on {self._n}")
+            r = getattr(self._f, k)(*a, **kw)
+            probe(f"after {k} on {self._n}")
+            return r
+
+        def write(self, *a, **kw):
+            return self._wrap("write", *a, **kw)
+
+        def writelines(self, *a, **kw):
+            return self._wrap("writelines", *a, **kw)
+
+        def flush(self, *a, **kw):
+            return self._wrap("flush", *a, **kw)
+
+        def truncate(self, *a, **kw):
+            return self._wrap("truncate", *a, **kw)
+
+        def close(self, *a, **kw):
+            return self._wrap("close", *a, **kw)
+
+        def __enter__(self):
+            self._f.__enter__()
+            return self
+
+        def __exit__(self, *a):
+            probe(f"before close of {self._n}")
+            r = self._f.__exit__(*a)
+            probe(f"after close of {self._n}")
+            return r
+
+        def __iter__(self):
+            return iter(self._f)
+
+        def __getattr__(self, k):
+            return getattr(self._f, k)
+
+    def open_g(file, mode="r", *a, **kw):
+        if state["in"]:
+            return real_open(file, mode, *a, **kw)
+        writing = any(c in mode for c in "wax+")
+        if writing:
+            probe(f"before open({Path(str(file)).name if not isinstance(file, int) else file!r}, {mode!r})")
+        f = real_open(file, mode, *a, **kw)
+        if writing:
+            probe(f"after open({Path(str(file)).name if not isinstance(file, int) else file!r}, {mode!r})")
+            return FP(f, str(file))
+        return f
+
+    def wrap_os(k):
+        fn = real_os[k]
+
+        def w(*a, **kw):
+            if state["in"]:
+                return fn(*a, **kw)
+            if emulate_exdev and k in ("rename", "replace", "link") and len(a) >= 2:
+                try:
+                    if Path(os.fspath(a[0])).resolve().parent != Path(os.fspath(a[1])).resolve().parent:
+                        raise OSError(errno.EXDEV, "Invalid cross-device link (emulated)")
+                except TypeError:
+                    pass
+            if k == "open":
+                flags = a[1] if len(a) > 1 else kw.get("flags", 0)
+                if not flags & (os.O_WRONLY | os.O_RDWR | os.O_CREAT | os.O_TRUNC):
+                    return fn(*a, **kw)
+            probe(f"before os.{k}")
+            r = fn(*a, **kw)
+            probe(f"after os.{k}")
+            return r
+        return w
+
+    it = iter(samples_bytes)
+
+    class FakeMem:
+        def __init__(self, rss):
+            self.rss = rss
+
+    class FakeProc:
+        pid = -1
+
+        def __init__(self, pid=None):
+            pass
+
+        def memory_info(self):
+            try:
+                return FakeMem(next(it))
+            except StopIteration:
+                raise _Stop()
+
+        def children(self, recursive=False):
+            return []
+
+    class PsProxy:
+        Process = FakeProc
+        NoSuchProcess = Exception
+
+    class TimeProxy:
+        def sleep(self, s):
+            return None
+
+        def perf_counter(self):
+            return 0.0
+
+    class SyncProcess:
+        def __init__(self, target=None, args=(), kwargs=None, daemon=None, **kw):
+            self._t, self._a, self._k = target, args, kwargs or {}
+
+        def start(self):
+            self._t(*self._a, **self._k)
+
+    class MpProxy:
+        Process = SyncProcess
+
+        def __getattr__(self, k):
+            import multiprocessing
+            return getattr(multiprocessing, k)
+
+    saved = (mem.psutil, mem.time, mem.mp)
+    mem.psutil, mem.time, mem.mp = PsProxy(), TimeProxy(), MpProxy()
+    builtins.open = open_g
+    import io
+    real_io_open = io.open
+    io.open = open_g
+    for k in real_os:
+        setattr(os, k, wrap_os(k))
+    try:
+        try:
+            mem.launch_monitor_rss_daemon(out_dir / "monitor-rss.csv", 0.0)
+        except _Stop:
+            pass
+        except Exception as e:
+            if state["bad"] is None:
+                state["bad"] = f"the monitor itself failed: {type(e).__name__}: {str(e)[:100]}"
+    finally:
+        builtins.open = real_open
+        io.open = real_io_open
+        for k, fn in real_os.items():
+            setattr(os, k, fn)
+        mem.psutil, mem.time, mem.mp = saved
+    if state["bad"] is None:
+        probe("after the last sample")
+        if state["bad"] is None and maxima and state["last"] != maxima[-1]:
+            state["bad"] = f"final value {state['last']!r} is not the peak {maxima[-1]!r}"
+    return state["bad"]
+
+
+def other_filesystem_dir():
+    """a writable directory on another file system than the system temp dir, or None"""
+    try:
+        base = os.stat(tempfile.gettempdir()).st_dev
+        for cand in ("/dev/shm", "/run/shm", str(Path.home()), "/var/tmp"):
+            if os.path.isdir(cand) and os.access(cand, os.W_OK) and os.stat(cand).st_dev != base:
+                return cand
+    except OSError:
+        pass
+    return None
+
+
+def global_placements():
+    """(label, parent directory or None for the temp dir, emulate_exdev)"""
+    other = other_filesystem_dir()
+    return [("temp-dir", None, False),
+            ("other-filesystem", other, False) if other else ("other-filesystem-emulated", None, True)]
+
+
+def suite_monitor_global(seed, tier):
+    """direct oracle only: the process-wide probe, output directory inside and outside the temp dir's file system"""
+    rng = random.Random(seed + 11)
+    r = Result("monitor-global")
+    n = 12 if tier == "quick" else 300
+    pts = 0
+    for k in range(n):
+        samples = gen_samples(rng)
+        for label, parent, emu in global_placements():
+            with tempfile.TemporaryDirectory(prefix="verif_mong_", dir=parent) as tmp:
+                v = global_probe_violation(samples, Path(tmp), emulate_exdev=emu)
+            pts += 1
+            if v:
+                r.bad.append({"suite": "monitor-global", "what": v, "samples_bytes": samples, "placement": label})
+                break
+    r.cases = pts
+    r.nontrivial = pts
+    r.stats = {"sample_sequences": n, "placements": [p[0] for p in global_placements()]}
+    r.samples = [{"placements": [p[0] for p in global_placements()]}]
+    return r
+
+
 def gen_samples(rng):
     n = rng.randint(1, 8)
     page = 4096
@@ -684,10 +923,14 @@ def search_c20(seed, tier, failures):
                 return {"violation": d["what"], "samples_bytes": d["samples_bytes"], "case": d["case"],
                         "monitor_ops_before_the_run": d["monitor_ops_before_the_run"]}
     for kind, d in failures:
-        if isinstance(d, dict) and d.get("suite") in ("monitor", "monitor-interleave") \
+        if isinstance(d, dict) and d.get("suite") in ("monitor", "monitor-interleave", "monitor-global") \
                 and "differ from Model" not in d.get("what", "") and "differs from Model" not in d.get("what", "") \
                 and "not the modelled" not in d.get("what", ""):
-            return {"violation": d["what"], "samples_bytes": d.get("samples_bytes"), "schedule": d.get("schedule")}
+            return {"violation": d["what"], "samples_bytes": d.get("samples_bytes"), "schedule": d.get("schedule"),
+                    **({"placement": d["placement"]} if "placement" in d else {})}
+    rr = suite_monitor_global(seed + 1, "quick")
+    for d in rr.bad:
+        return {"violation": d["what"], "samples_bytes": d["samples_bytes"], "placement": d["placement"]}
     rng = random.Random(seed + 1)
     for _ in range(400 if tier == "quick" else 5000):
         samples = gen_samples(rng)
@@ -710,6 +953,12 @@ def replay_c20(payload):
         return True
     if "monitor_ops_before_the_run" in fi:
         return monitor_vs_run_violation(fi["samples_bytes"], fi["case"], fi["monitor_ops_before_the_run"]) is None
+    if fi.get("placement"):
+        for label, parent, emu in global_placements():
+            if label == fi["placement"] or fi["placement"].startswith("other") and label.startswith("other"):
+                with tempfile.TemporaryDirectory(prefix="verif_mong_", dir=parent) as tmp:
+                    return global_probe_violation(fi["samples_bytes"], Path(tmp), emulate_exdev=emu) is None
+        return True
     if fi.get("schedule"):
         a, b, c, d = fi["schedule"]
         with tempfile.TemporaryDirectory(prefix="verif_mon_") as tmp:
